@@ -100,10 +100,18 @@ def with_format(rng, vals, fmt=None):
 
 def packing_instance(rng, nmax=9, family=None):
     """(C, vals, family) with 0 <= v <= C"""
-    fams = ["random", "thresholds", "exactfill", "allsmall", "allbig", "zeros", "perfect"]
+    fams = ["random", "thresholds", "exactfill", "allsmall", "allbig", "zeros", "perfect", "scalednoise"]
     family = family or rng.choice(fams)
     C = rng.choice([6, 9, 10, 12, 20, 30, 60, 100, 1000])
     n = rng.randint(1, nmax)
+    if family == "scalednoise":
+        # a small instance with exact fills, times 10^5..10^8, every number nudged by a few units: sums that were exactly C are now
+        # C-3..C+3 - relative differences of 1e-5..1e-8, where a float tolerance or a rounded threshold gives a different answer
+        C0, v0, _ = packing_instance(rng, nmax=nmax, family=rng.choice(["exactfill", "perfect", "thresholds"]))
+        M = rng.choice([10 ** 5, 10 ** 6, 10 ** 7, 10 ** 8])
+        C = C0 * M + rng.randint(-2, 2)
+        v = [min(C, max(1, x * M + rng.randint(-3, 3))) if x > 0 else 0 for x in v0]
+        return C, v, family
     if family == "random":
         v = [rng.randint(1, C) for _ in range(n)]
     elif family == "thresholds":
@@ -142,10 +150,16 @@ def packing_instance(rng, nmax=9, family=None):
 
 def covering_instance(rng, nmax=10, family=None):
     """(C, vals, family) with positive values (items larger than C allowed)"""
-    fams = ["random", "thresholds", "allsmall", "allbig", "oversize", "toosmall", "planted"]
+    fams = ["random", "thresholds", "allsmall", "allbig", "oversize", "toosmall", "planted", "scalednoise"]
     family = family or rng.choice(fams)
     C = rng.choice([6, 9, 10, 12, 20, 30, 60, 100, 1000])
     n = rng.randint(1, nmax)
+    if family == "scalednoise":
+        C0, v0, _ = covering_instance(rng, nmax=nmax, family=rng.choice(["planted", "thresholds", "random"]))
+        M = rng.choice([10 ** 5, 10 ** 6, 10 ** 7, 10 ** 8])
+        C = C0 * M + rng.randint(-2, 2)
+        v = [max(1, x * M + rng.randint(-3, 3)) for x in v0]
+        return C, v, family
     if family == "random":
         v = [rng.randint(1, C) for _ in range(n)]
     elif family == "thresholds":
